@@ -366,6 +366,8 @@ def inline_pure_temps(fdef):
         v = strip_cast(n.value)
         if isinstance(v, (ast.Constant, ast.List, ast.Dict, ast.Set, ast.Name)):
             continue
+        if any(isinstance(x, ast.Name) and x.id == name for x in ast.walk(v)):
+            continue        # defined in terms of itself (an argument that is normalised in place)
         def pure_call(x):
             if isinstance(x.func, ast.Name):
                 return x.func.id in PURE_CALLS
@@ -524,3 +526,53 @@ def hidden_state_stores(fn):
         if isinstance(st, ast.Global) or complete_memo(fn, st) is not None:
             out.append(st)
     return out
+
+
+def inline_tail_self_calls(f, methods, depth=2):
+    """`return self.m(a, b)` where m is another method of the same class -> m's body with its parameters replaced by the argument
+    expressions (names or constants only) and its locals renamed.  A tail call: whatever m returns is what f returns there."""
+    import copy
+
+    def subst(body, mapping, prefix, local):
+        class R(ast.NodeTransformer):
+            def visit_Name(self, n):
+                if n.id in mapping and isinstance(n.ctx, ast.Load):
+                    return ast.copy_location(copy.deepcopy(mapping[n.id]), n)
+                if n.id in local:
+                    return ast.copy_location(ast.Name(id=prefix + n.id, ctx=n.ctx), n)
+                return n
+        return [R().visit(copy.deepcopy(st)) for st in body]
+
+    def rewrite(stmts, level):
+        out = []
+        for st in stmts:
+            if isinstance(st, ast.Return) and isinstance(st.value, ast.Call) and isinstance(st.value.func, ast.Attribute) \
+                    and src(st.value.func.value) == 'self' and st.value.func.attr in methods and st.value.func.attr != f.name \
+                    and not st.value.keywords and level < depth and all(isinstance(a, (ast.Name, ast.Constant)) for a in st.value.args):
+                g = methods[st.value.func.attr]
+                params = [a.arg for a in g.args.args[1:]]
+                if len(params) == len(st.value.args) and not g.args.vararg and not g.args.kwarg:
+                    mapping = dict(zip(params, st.value.args))
+                    local = {n.id for n in ast.walk(g) if isinstance(n, ast.Name) and isinstance(n.ctx, ast.Store)} - set(params)
+                    stores_param = any(isinstance(n, ast.Name) and isinstance(n.ctx, ast.Store) and n.id in params for n in ast.walk(g))
+                    if not stores_param:
+                        body = subst(g.body, mapping, '_%s_' % g.name, local)
+                        for b_ in body:
+                            for x in ast.walk(b_):
+                                if not hasattr(x, 'lineno'):
+                                    ast.copy_location(x, st)
+                        out.extend(rewrite(body, level + 1))
+                        continue
+            for fld in ('body', 'orelse', 'finalbody'):
+                if hasattr(st, fld) and isinstance(getattr(st, fld), list) and getattr(st, fld) and isinstance(getattr(st, fld)[0], ast.stmt):
+                    st = copy.copy(st)
+                    setattr(st, fld, rewrite(getattr(st, fld), level))
+            out.append(st)
+        return out
+    if not any(isinstance(n, ast.Return) and isinstance(n.value, ast.Call) and isinstance(n.value.func, ast.Attribute)
+               and src(n.value.func.value) == 'self' and n.value.func.attr in methods for n in ast.walk(f)):
+        return f
+    g = copy.copy(f)
+    g.body = rewrite(f.body, 0)
+    ast.fix_missing_locations(g)
+    return g
